@@ -766,7 +766,7 @@ func c13RunCase(line string, root string, idx int, templates string) (res string
 				cfg.SubscriberGroups = c13DeepConfig(true).SubscriberGroups
 			case "n":
 				cfg.SubscriberGroups = c13DeepConfig(false).SubscriberGroups
-			case "m": // both groups carry the same OUT-OF-RANGE S-VLAN: GetSVLANs fails, ValidateMatchIndex skips them
+			case "m": // both groups carry the same OUT-OF-RANGE S-VLAN: GetSVLANs fails, ValidateMatchIndex rejects (461c9d7)
 				cfg.SubscriberGroups = c13DeepConfig(true).SubscriberGroups
 				for _, g := range cfg.SubscriberGroups.Groups {
 					for i := range g.VLANs {
